@@ -113,6 +113,58 @@ pub fn c01(tier: Tier) -> Vec<Scenario> {
     s.oracles = route.clone();
     out.push(s);
 
+    // operations issued through an open stream's own handle (stream.ldap_handle()): a second
+    // search and a single operation; the outer stream is then finished early while they run
+    let mut s = Scenario::new("C01/through-the-stream-handle");
+    s.clients = vec![
+        client(vec![
+            start("s0", Chain::Direct),
+            Call::Next,
+            Call::StartInner { marker: "i0".into() },
+            Call::Finish,
+            Call::NextInner,
+            Call::NextInner,
+            Call::NextInner,
+            Call::FinishInner,
+        ]),
+        client(vec![single(OpKind::Bind, "b0")]),
+    ];
+    s.plans.insert("s0".into(), plan_items(&[E, E]));
+    s.plans.insert("i0".into(), Plan { items: vec![E, R], rc: 4, ..Default::default() });
+    s.select_starts = vec![0, 1];
+    s.oracles = route.clone();
+    out.push(s);
+    let mut s = Scenario::new("C01/single-through-the-stream-handle");
+    s.clients = vec![client(vec![
+        start("s0", Chain::Direct),
+        Call::SingleViaStream { kind: OpKind::Compare, marker: "c0".into() },
+        Call::Next,
+        Call::Next,
+        Call::Finish,
+    ])];
+    s.plans.insert("s0".into(), plan_items(&[E]));
+    s.plans.insert("c0".into(), Plan { rc: 6, ..Default::default() });
+    s.select_starts = vec![0, 1];
+    s.oracles = route.clone();
+    out.push(s);
+
+    // the shortest message there is (an IntermediateResponse without name and value, 7 octets)
+    // as a search item, alone in a read
+    let mut s = Scenario::new("C01/bare-intermediate-items");
+    s.clients = vec![
+        client(vec![start("s0", Chain::Direct), Call::Next, Call::Next, Call::Next, Call::Next, Call::Finish]),
+        client(vec![Call::Search { marker: "s1".into(), timeout: None }]),
+    ];
+    s.plans.insert("s0".into(), Plan { items: vec![I, E, I], bare_intermediate: true, ..Default::default() });
+    s.plans.insert("s1".into(), Plan { items: vec![I, E], bare_intermediate: true, ..Default::default() });
+    s.select_starts = vec![1];
+    s.oracles = route.clone();
+    out.push(s);
+
+    // byte level with responses beyond 127 octets (long-form outer length): every cut position,
+    // also inside the length octets
+    out.push(long_response_bytes("C01"));
+
     // byte level: every frame may be cut anywhere (Net(One) / Net(Frame) / Net(All))
     let mut s = Scenario::new("C01/R(1,1,0)-bytes");
     s.clients = vec![client(vec![single(OpKind::Bind, "a")]), client(vec![Call::Search { marker: "s".into(), timeout: None }])];
@@ -123,6 +175,21 @@ pub fn c01(tier: Tier) -> Vec<Scenario> {
     s.oracles = route;
     out.push(s);
     out
+}
+
+/// two single operations whose responses are longer than 127 octets (130- and 300-character
+/// markers come back as the diagnostic text), delivered byte by byte or whole
+pub fn long_response_bytes(prop: &str) -> Scenario {
+    let mut s = Scenario::new(&format!("{}/long-responses-bytes", prop));
+    let m130 = "L".repeat(130);
+    let m300 = "M".repeat(300);
+    s.clients = vec![client(vec![single(OpKind::Bind, &m130)]), client(vec![single(OpKind::Compare, &m300)])];
+    s.plans.insert(m300, Plan { rc: 6, res_ctrls: true, ..Default::default() });
+    s.byte_mode = true;
+    s.net_steps = vec![NetStep::One, NetStep::All];
+    s.select_starts = vec![3];
+    s.oracles = Oracles { route: true, ids: true, ..Default::default() };
+    s
 }
 
 // ------------------------------------------------------------------------------------------ C13
@@ -152,9 +219,14 @@ pub enum Step {
     PagedEntries2,
     /// the same chain, finished while page 2 is open
     PagedEntriesEarly,
+    /// the server sends an IntermediateResponse under the ID of a pending extended operation
+    SingleGetsIntermediate,
+    /// a single operation and a second search through an open stream's own handle, the outer
+    /// stream finished early
+    ThroughStreamHandle,
 }
 
-pub const ALL_STEPS: [Step; 18] = [
+pub const ALL_STEPS: [Step; 20] = [
     Step::SingleOk,
     Step::SingleErr,
     Step::TimedOut,
@@ -173,6 +245,8 @@ pub const ALL_STEPS: [Step; 18] = [
     Step::CustomAdapterFails,
     Step::PagedEntries2,
     Step::PagedEntriesEarly,
+    Step::SingleGetsIntermediate,
+    Step::ThroughStreamHandle,
 ];
 
 /// append the calls of one step (markers are made unique with `tag`)
@@ -254,6 +328,26 @@ fn push_step(s: &mut Scenario, script: &mut Vec<Call>, step: Step, tag: &str) {
         Step::PagedEntriesEarly => {
             script.extend([start(&m("qe"), Chain::PagedEntries(1)), Call::Next, Call::Next, Call::Finish]);
             s.plans.insert(m("qe"), Plan { total: 3, ..Default::default() });
+        }
+        Step::SingleGetsIntermediate => {
+            script.push(single(OpKind::Extended, &m("ir")));
+            if !s.bogus.contains(&BogusKind::IntermediateForPending) {
+                s.bogus.push(BogusKind::IntermediateForPending);
+            }
+        }
+        Step::ThroughStreamHandle => {
+            script.extend([
+                start(&m("so"), Chain::Direct),
+                Call::SingleViaStream { kind: OpKind::Compare, marker: m("sc") },
+                Call::StartInner { marker: m("si") },
+                Call::Next,
+                Call::Finish,
+                Call::NextInner,
+                Call::NextInner,
+                Call::FinishInner,
+            ]);
+            s.plans.insert(m("so"), plan_items(&[E, E]));
+            s.plans.insert(m("si"), plan_items(&[E]));
         }
         Step::Unsolicited => {
             script.push(single(OpKind::Bind, &m("un")));
@@ -551,6 +645,28 @@ pub fn c10(tier: Tier) -> Vec<Scenario> {
         s.oracles = Oracles { stream: true, route: true, ..Default::default() };
         out.push(s);
     }
+    // search() when the connection fails before the final result: an error, nothing else
+    let mut s = Scenario::new("C10/search()/failure");
+    s.clients = vec![client(vec![Call::Search { marker: "s".into(), timeout: None }])];
+    s.plans.insert("s".into(), plan_items(&[E, R, E]));
+    s.faults = vec![FaultKind::Eof, FaultKind::Garbage];
+    s.fault_budget = 1;
+    s.select_starts = vec![1];
+    s.oracles = Oracles { stream: true, route: true, ..Default::default() };
+    out.push(s);
+    // reference messages with repeated URIs, a result referral with a repeated and a non-ASCII
+    // URI, a non-ASCII base: every URI comes through as sent, in order, none merged
+    for chain in [Some(Chain::Direct), Some(Chain::EntriesOnly), None] {
+        let mut s = Scenario::new(&format!("C10/{:?}/repeated-and-non-ascii-uris", chain));
+        s.clients = vec![match &chain {
+            Some(c) => ClientSpec { script: vec![start("sé", c.clone())], free: 6 },
+            None => client(vec![Call::Search { marker: "sé".into(), timeout: None }]),
+        }];
+        s.plans.insert("sé".into(), Plan { items: vec![R, E, R], rc: 10, referral: true, dup_refs: true, ..Default::default() });
+        s.select_starts = vec![1];
+        s.oracles = Oracles { stream: true, route: true, leak: true, ..Default::default() };
+        out.push(s);
+    }
     // what a user-defined adapter sees on the stream after the call up the chain failed
     let mut s = Scenario::new("C10/Probe/failure-seen-inside-the-chain");
     s.clients = vec![ClientSpec { script: vec![start("s", Chain::Probe), Call::Next], free: 3 }];
@@ -784,6 +900,22 @@ pub fn c12(tier: Tier) -> Vec<Scenario> {
         s.oracles = o.clone();
         out.push(s);
     }
+    // the largest timeout there is (Duration::MAX): the operation simply completes
+    let mut s = Scenario::new("C12/timeout-duration-max");
+    s.clients = vec![client(vec![
+        tsingle(OpKind::Compare, "t0", u64::MAX),
+        Call::Search { marker: "s".into(), timeout: Some(u64::MAX) },
+        Call::Start { marker: "d".into(), chain: Chain::Direct, timeout: Some(u64::MAX), ctrl: false, opts: false, own_paging: false },
+        Call::Next,
+        Call::Next,
+        Call::Finish,
+    ])];
+    s.plans.insert("s".into(), plan_items(&[E]));
+    s.plans.insert("d".into(), plan_items(&[E]));
+    s.tick_budget = 1;
+    s.select_starts = vec![1];
+    s.oracles = o.clone();
+    out.push(s);
     // after a timeout the handle keeps working: abandoning the timed-out ID, then another operation
     let mut s = Scenario::new("C12/abandon-after-timeout");
     s.clients = vec![client(vec![tsingle(OpKind::Compare, "t0", 10), Call::Abandon(AbTarget::OwnLast), single(OpKind::Bind, "after")])];
@@ -865,7 +997,7 @@ pub fn c12(tier: Tier) -> Vec<Scenario> {
 pub fn c04(tier: Tier) -> Vec<Scenario> {
     let mut out = vec![];
     let o = Oracles { term: true, route: true, ..Default::default() };
-    let read_faults = vec![FaultKind::Eof, FaultKind::Reset, FaultKind::Garbage];
+    let read_faults = vec![FaultKind::Eof, FaultKind::Reset, FaultKind::Garbage, FaultKind::ShortGarbage];
     let write_faults = vec![FaultKind::WriteErr, FaultKind::WritePartial(3), FaultKind::WritePendingOnce];
     let mut all = read_faults.clone();
     all.extend(write_faults.clone());
@@ -874,6 +1006,15 @@ pub fn c04(tier: Tier) -> Vec<Scenario> {
     s.clients = vec![client(vec![single(OpKind::Bind, "a0"), single(OpKind::Delete, "a1")])];
     s.faults = all.clone();
     s.fault_budget = 1;
+    s.oracles = o.clone();
+    out.push(s);
+
+    // an Unbind (and a search start) on a connection that is already gone fail at once
+    let mut s = Scenario::new("C04/one-single+post-fault-unbind");
+    s.clients = vec![client(vec![single(OpKind::Bind, "a0"), Call::Unbind]), client(vec![single(OpKind::Compare, "b0"), start("s", Chain::Direct)])];
+    s.faults = all.clone();
+    s.fault_budget = 1;
+    s.select_starts = vec![1];
     s.oracles = o.clone();
     out.push(s);
 
@@ -891,7 +1032,7 @@ pub fn c04(tier: Tier) -> Vec<Scenario> {
         client(vec![start("s", Chain::Direct), Call::Next, Call::Next, Call::Next, Call::Finish]),
     ];
     s.plans.insert("s".into(), plan_items(&[E, E]));
-    s.faults = if tier == Tier::Thorough { all.clone() } else { vec![FaultKind::Eof, FaultKind::Garbage, FaultKind::WriteErr] };
+    s.faults = if tier == Tier::Thorough { all.clone() } else { vec![FaultKind::Eof, FaultKind::Garbage, FaultKind::ShortGarbage, FaultKind::WriteErr] };
     s.fault_budget = 1;
     s.select_starts = vec![1, 3];
     s.oracles = o.clone();
